@@ -35,6 +35,7 @@ type c20Plan struct {
 	TimeoutUs  int       `json:"timeout_us"`
 	Steps      []c20Step `json:"steps"`
 	Responders int       `json:"responders,omitempty"`
+	Repeat     int       `json:"repeat,omitempty"` // the same call again (fresh sockets each time): for schedule-dependent outcomes
 }
 
 var c20Seq int32
@@ -81,6 +82,15 @@ func startControl(d time.Duration) *control {
 const c20Slack = time.Second
 
 func c20Run(p c20Plan) (f *common.Fail, inconclusive string) {
+	for k := 0; k <= p.Repeat; k++ {
+		if f, inconclusive = c20RunOnce(p); f != nil {
+			return
+		}
+	}
+	return
+}
+
+func c20RunOnce(p c20Plan) (f *common.Fail, inconclusive string) {
 	baseRecv := receiverGoroutines()
 	baseFd := fdCount()
 	timeout := time.Duration(p.TimeoutUs) * time.Microsecond
@@ -537,6 +547,28 @@ func genPlanC20(rt *rapid.T) c20Plan {
 				p.Steps = append(p.Steps, c20Step{AtUs: t + 1, Kind: "match", Hex: genMatch(rt, p.Call), From: 0})
 				late = false
 			}
+		}
+		return p
+	}
+	if p.Call == "describe" && rapid.IntRange(0, 3).Draw(rt, "burst-behind-match") == 0 {
+		// the server answers and repeats long answers back to back: frames are still arriving (being read and
+		// decoded by the receiver) at the very moment the call takes its result and releases the socket
+		at := rapid.IntRange(0, p.TimeoutUs/2).Draw(rt, "burst-at")
+		for i := 0; i < rapid.IntRange(3, 8).Draw(rt, "burst-len"); i++ {
+			f := common.GenFrame(rt, "descrres", "ldata-ind-app")
+			for k := 0; k < 170; k++ {
+				f.Extra = append(f.Extra, common.RDIB{Len: 4, Type: 0xfe, Body: []byte{byte(k), byte(i)}})
+			}
+			b, _ := common.RefEncode(f)
+			var sv knxnet.Service
+			if _, err := knxnet.Unpack(b, &sv); err != nil || len(b) > 1024 {
+				continue
+			}
+			p.Steps = append(p.Steps, c20Step{AtUs: at, Kind: "match", Hex: hex.EncodeToString(b)})
+		}
+		p.Repeat = 7
+		if p.TimeoutUs > 60000 {
+			p.TimeoutUs = 60000
 		}
 		return p
 	}
